@@ -6,10 +6,11 @@ HOME = os.path.dirname(os.path.dirname(os.path.abspath(__file__)))
 props = os.path.join(HOME, 'lean', 'MsmVerif', 'Props')
 reg = {}
 for f in sorted(os.listdir(props)):
-    m = re.match(r'(C\d+)\.lean$', f)
+    m = re.match(r'(C\d+)(\w*)\.lean$', f)
     if not m:
         continue
     pid = m.group(1)
+    modname = m.group(1) + m.group(2)
     src = open(os.path.join(props, f)).read()
     ns = re.search(r'^namespace\s+(\S+)', src, re.M).group(1)
     thms = []
@@ -17,7 +18,11 @@ for f in sorted(os.listdir(props)):
         doc = ' '.join((mm.group(1) or '').split())
         # keep only the docstring immediately preceding
         thms.append({'name': ns + '.' + mm.group(2), 'statement': doc[-600:]})
-    reg[pid] = {'modules': ['MsmVerif.Props.' + pid], 'theorems': thms}
+    if pid in reg:
+        reg[pid]['modules'].append('MsmVerif.Props.' + modname)
+        reg[pid]['theorems'] += thms
+    else:
+        reg[pid] = {'modules': ['MsmVerif.Props.' + modname], 'theorems': thms}
 DEFAULT_MODULES = {'C01': 'Msm', 'C02': 'Heap', 'C03': 'Linalg', 'C04': 'Linalg', 'C05': 'Coring', 'C06': 'Events', 'C07': 'Mcmc',
                    'C08': 'Events', 'C09': 'Linalg', 'C10': 'Timescales', 'C11': 'Msm', 'C12': 'Basic', 'C13': 'Compare', 'C14': 'Linalg',
                    'C15': 'Relabel', 'C16': 'TextIO', 'C17': 'Basic', 'C18': 'Heap', 'C19': 'TextIO', 'C20': 'Filter'}
